@@ -3,10 +3,27 @@
 // semantics). It is written from the documentation, not from the
 // implementation. Keys are "table:key" strings per type; one Store models one
 // namespace (or one partition).
+//
+// Documented deviations from Redis that are modelled (doc/user-guide.md):
+//   - every data type has its own keyspace: the same key name may hold a
+//     string, a hash, a list, a set and a sorted set at the same time and no
+//     command ever answers WRONGTYPE;
+//   - DEL / EXISTS / MGET (and EXPIRE/TTL/PERSIST, not modelled) work on the
+//     string (KV) keyspace only; collections are removed / probed with the
+//     extension commands HCLEAR LCLEAR SCLEAR ZCLEAR (reply: number of keys
+//     removed, 0 or 1, like DEL of one key) and HKEYEXIST LKEYEXIST SKEYEXIST
+//     ZKEYEXIST (reply 0 or 1, like EXISTS of one key);
+//   - SPOP and SRANDMEMBER take members in key (byte) order;
+//   - enumerating replies (HGETALL HKEYS HVALS SMEMBERS) come in byte order of
+//     the field / member (Redis leaves the order unspecified).
+//
+// Expiry is not modelled here (SETEX / SET .. EX store the value; the caller
+// must not let the clock reach the expiry).
 package model
 
 import (
 	"fmt"
+	"math"
 	"sort"
 	"strconv"
 	"strings"
@@ -45,16 +62,224 @@ func sortedKeys(m map[string]string) []string {
 	return ks
 }
 
+func sortedSet(m map[string]bool) []string {
+	ks := make([]string, 0, len(m))
+	for k := range m {
+		ks = append(ks, k)
+	}
+	sort.Strings(ks)
+	return ks
+}
+
 // FmtScore renders a score the way redis does for integers and simple floats.
 func FmtScore(f float64) string { return strconv.FormatFloat(f, 'g', -1, 64) }
 
+// parseInt is Redis' string2ll: an optional '-', then digits without a
+// superfluous leading zero; no '+', no spaces, no empty string.
 func parseInt(s string) (int64, bool) {
+	if s == "" {
+		return 0, false
+	}
+	d := s
+	if d[0] == '-' {
+		d = d[1:]
+	}
+	if d == "" || (len(d) > 1 && d[0] == '0') || (d == "0" && s[0] == '-') {
+		return 0, false
+	}
+	for i := 0; i < len(d); i++ {
+		if d[i] < '0' || d[i] > '9' {
+			return 0, false
+		}
+	}
 	v, err := strconv.ParseInt(s, 10, 64)
 	return v, err == nil
 }
 
+// parseScore is Redis' strtod-based score parsing: decimal floats and
+// (+|-)inf; NaN is refused.
+func parseScore(s string) (float64, bool) {
+	if s == "" || s[0] == ' ' || s[len(s)-1] == ' ' {
+		return 0, false
+	}
+	switch strings.ToLower(s) {
+	case "inf", "+inf", "infinity", "+infinity":
+		return math.Inf(1), true
+	case "-inf", "-infinity":
+		return math.Inf(-1), true
+	}
+	for i := 0; i < len(s); i++ {
+		c := s[i]
+		if !(c >= '0' && c <= '9') && c != '.' && c != '-' && c != '+' && c != 'e' && c != 'E' {
+			return 0, false
+		}
+	}
+	v, err := strconv.ParseFloat(s, 64)
+	if err != nil || math.IsNaN(v) {
+		return 0, false
+	}
+	return v, true
+}
+
+func addOverflows(a, b int64) bool {
+	return (b > 0 && a > math.MaxInt64-b) || (b < 0 && a < math.MinInt64-b)
+}
+
+// rng clamps a Redis start/stop index pair to [0,n); ok=false means empty.
+func rng(s, e, n int64) (int64, int64, bool) {
+	if s < 0 {
+		s += n
+	}
+	if e < 0 {
+		e += n
+	}
+	if s < 0 {
+		s = 0
+	}
+	if e >= n {
+		e = n - 1
+	}
+	if n == 0 || s > e || s >= n {
+		return 0, 0, false
+	}
+	return s, e, true
+}
+
+func (st *Store) zsorted(k string) []zmember {
+	var ms []zmember
+	for m, s := range st.ZSet[k] {
+		ms = append(ms, zmember{m, s})
+	}
+	sort.Slice(ms, func(i, j int) bool {
+		if ms[i].s != ms[j].s {
+			return ms[i].s < ms[j].s
+		}
+		return ms[i].m < ms[j].m
+	})
+	return ms
+}
+
+func (st *Store) zlexsorted(k string) []string {
+	ms := make([]string, 0, len(st.ZSet[k]))
+	for m := range st.ZSet[k] {
+		ms = append(ms, m)
+	}
+	sort.Strings(ms)
+	return ms
+}
+
+type scoreBound struct {
+	v  float64
+	ex bool
+}
+
+func parseScoreBound(s string) (scoreBound, bool) {
+	var b scoreBound
+	if strings.HasPrefix(s, "(") {
+		b.ex = true
+		s = s[1:]
+	}
+	v, ok := parseScore(s)
+	b.v = v
+	return b, ok
+}
+
+func inScore(x float64, lo, hi scoreBound) bool {
+	if lo.ex {
+		if !(x > lo.v) {
+			return false
+		}
+	} else if !(x >= lo.v) {
+		return false
+	}
+	if hi.ex {
+		return x < hi.v
+	}
+	return x <= hi.v
+}
+
+type lexBound struct {
+	v   string
+	ex  bool
+	inf int // -1: "-", +1: "+"
+}
+
+func parseLexBound(s string) (lexBound, bool) {
+	switch {
+	case s == "-":
+		return lexBound{inf: -1}, true
+	case s == "+":
+		return lexBound{inf: 1}, true
+	case strings.HasPrefix(s, "("):
+		return lexBound{v: s[1:], ex: true}, true
+	case strings.HasPrefix(s, "["):
+		return lexBound{v: s[1:]}, true
+	}
+	return lexBound{}, false
+}
+
+func inLex(x string, lo, hi lexBound) bool {
+	switch {
+	case lo.inf > 0:
+		return false
+	case lo.inf == 0 && lo.ex && !(x > lo.v):
+		return false
+	case lo.inf == 0 && !lo.ex && !(x >= lo.v):
+		return false
+	}
+	switch {
+	case hi.inf < 0:
+		return false
+	case hi.inf == 0 && hi.ex && !(x < hi.v):
+		return false
+	case hi.inf == 0 && !hi.ex && !(x <= hi.v):
+		return false
+	}
+	return true
+}
+
+// limit applies LIMIT offset count to n selected elements: the index window.
+func limit(n int, off, cnt int64) (int, int) {
+	if off < 0 || off >= int64(n) {
+		return 0, 0
+	}
+	end := int64(n)
+	if cnt >= 0 && off+cnt < end {
+		end = off + cnt
+	}
+	return int(off), int(end)
+}
+
+// parseLimit parses an optional trailing "LIMIT offset count".
+func parseLimit(a []string) (off, cnt int64, ok bool) {
+	off, cnt = 0, -1
+	if len(a) == 0 {
+		return off, cnt, true
+	}
+	if len(a) != 3 || strings.ToLower(a[0]) != "limit" {
+		return 0, 0, false
+	}
+	o, ok1 := parseInt(a[1])
+	c, ok2 := parseInt(a[2])
+	return o, c, ok1 && ok2
+}
+
+func (st *Store) zdropEmpty(k string) {
+	if z, ok := st.ZSet[k]; ok && len(z) == 0 {
+		delete(st.ZSet, k)
+	}
+}
+
+func b2i(b bool) interface{} {
+	if b {
+		return int64(1)
+	}
+	return int64(0)
+}
+
 // Apply executes one command (args[0] lower-case name, args[1] key without
 // namespace) and returns the reply. Unknown commands return Err("unknown").
+// A command that returns Err leaves the store unchanged.
 func (st *Store) Apply(args []string) interface{} {
 	if len(args) < 2 {
 		return Err("args")
@@ -64,12 +289,52 @@ func (st *Store) Apply(args []string) interface{} {
 	switch name {
 	// ---- KV ----
 	case "set":
-		if len(a) != 1 {
+		if len(a) < 1 {
 			return Err("args")
+		}
+		nx, xx := false, false
+		for i := 1; i < len(a); i++ {
+			switch strings.ToLower(a[i]) {
+			case "nx":
+				nx = true
+			case "xx":
+				xx = true
+			case "ex":
+				if i+1 >= len(a) {
+					return Err("syntax")
+				}
+				s, ok := parseInt(a[i+1])
+				if !ok || s <= 0 {
+					return Err("invalid expire")
+				}
+				i++
+			default:
+				return Err("syntax")
+			}
+		}
+		if nx && xx {
+			return Err("syntax")
+		}
+		_, had := st.KV[k]
+		if (nx && had) || (xx && !had) {
+			return nil
 		}
 		st.KV[k] = a[0]
 		return "OK"
+	case "setex":
+		if len(a) != 2 {
+			return Err("args")
+		}
+		s, ok := parseInt(a[0])
+		if !ok || s <= 0 {
+			return Err("invalid expire")
+		}
+		st.KV[k] = a[1]
+		return "OK"
 	case "get":
+		if len(a) != 0 {
+			return Err("args")
+		}
 		if v, ok := st.KV[k]; ok {
 			return bulk(v)
 		}
@@ -99,9 +364,72 @@ func (st *Store) Apply(args []string) interface{} {
 		}
 		st.KV[k] += a[0]
 		return int64(len(st.KV[k]))
-	case "incr", "incrby":
+	case "strlen":
+		if len(a) != 0 {
+			return Err("args")
+		}
+		return int64(len(st.KV[k]))
+	case "setrange":
+		if len(a) != 2 {
+			return Err("args")
+		}
+		off, ok := parseInt(a[0])
+		if !ok || off < 0 {
+			return Err("offset")
+		}
+		cur, had := st.KV[k]
+		if a[1] == "" {
+			return int64(len(cur))
+		}
+		if off+int64(len(a[1])) > 512<<20 {
+			return Err("too long")
+		}
+		_ = had
+		b := []byte(cur)
+		for int64(len(b)) < off+int64(len(a[1])) {
+			b = append(b, 0)
+		}
+		copy(b[off:], a[1])
+		st.KV[k] = string(b)
+		return int64(len(b))
+	case "getrange":
+		if len(a) != 2 {
+			return Err("args")
+		}
+		s, ok1 := parseInt(a[0])
+		e, ok2 := parseInt(a[1])
+		if !ok1 || !ok2 {
+			return Err("not int")
+		}
+		v := st.KV[k]
+		n := int64(len(v))
+		// Redis getrangeCommand, literally (note: a negative end beyond the
+		// beginning is clamped to 0, not to "empty")
+		if s < 0 && e < 0 && s > e {
+			return bulk("")
+		}
+		if s < 0 {
+			s += n
+		}
+		if e < 0 {
+			e += n
+		}
+		if s < 0 {
+			s = 0
+		}
+		if e < 0 {
+			e = 0
+		}
+		if e >= n {
+			e = n - 1
+		}
+		if n == 0 || s > e {
+			return bulk("")
+		}
+		return bulk(v[s : e+1])
+	case "incr", "incrby", "decr", "decrby":
 		by := int64(1)
-		if name == "incrby" {
+		if name == "incrby" || name == "decrby" {
 			if len(a) != 1 {
 				return Err("args")
 			}
@@ -110,6 +438,14 @@ func (st *Store) Apply(args []string) interface{} {
 				return Err("not int")
 			}
 			by = v
+		} else if len(a) != 0 {
+			return Err("args")
+		}
+		if name == "decr" || name == "decrby" {
+			if by == math.MinInt64 {
+				return Err("overflow")
+			}
+			by = -by
 		}
 		cur := int64(0)
 		if v, ok := st.KV[k]; ok {
@@ -118,6 +454,9 @@ func (st *Store) Apply(args []string) interface{} {
 				return Err("not int")
 			}
 			cur = c
+		}
+		if addOverflows(cur, by) {
+			return Err("overflow")
 		}
 		cur += by
 		st.KV[k] = strconv.FormatInt(cur, 10)
@@ -139,6 +478,16 @@ func (st *Store) Apply(args []string) interface{} {
 			}
 		}
 		return n
+	case "mget":
+		out := []interface{}{}
+		for _, kk := range args[1:] {
+			if v, ok := st.KV[kk]; ok {
+				out = append(out, bulk(v))
+			} else {
+				out = append(out, nil)
+			}
+		}
+		return out
 	// ---- list ----
 	case "lpush", "rpush":
 		if len(a) < 1 {
@@ -155,6 +504,9 @@ func (st *Store) Apply(args []string) interface{} {
 		st.List[k] = l
 		return int64(len(l))
 	case "lpop", "rpop":
+		if len(a) != 0 {
+			return Err("args")
+		}
 		l := st.List[k]
 		if len(l) == 0 {
 			return nil
@@ -172,7 +524,26 @@ func (st *Store) Apply(args []string) interface{} {
 		}
 		return bulk(v)
 	case "llen":
+		if len(a) != 0 {
+			return Err("args")
+		}
 		return int64(len(st.List[k]))
+	case "lindex":
+		if len(a) != 1 {
+			return Err("args")
+		}
+		i, ok := parseInt(a[0])
+		if !ok {
+			return Err("not int")
+		}
+		l := st.List[k]
+		if i < 0 {
+			i += int64(len(l))
+		}
+		if i < 0 || i >= int64(len(l)) {
+			return nil
+		}
+		return bulk(l[i])
 	case "lrange":
 		if len(a) != 2 {
 			return Err("args")
@@ -183,24 +554,70 @@ func (st *Store) Apply(args []string) interface{} {
 			return Err("not int")
 		}
 		l := st.List[k]
-		n := int64(len(l))
-		if s < 0 {
-			s += n
-		}
-		if e < 0 {
-			e += n
-		}
-		if s < 0 {
-			s = 0
-		}
-		if e >= n {
-			e = n - 1
-		}
 		out := []interface{}{}
-		for i := s; i <= e && i < n; i++ {
+		s2, e2, ok := rng(s, e, int64(len(l)))
+		if !ok {
+			return out
+		}
+		for i := s2; i <= e2; i++ {
 			out = append(out, bulk(l[i]))
 		}
 		return out
+	case "lset":
+		if len(a) != 2 {
+			return Err("args")
+		}
+		i, ok := parseInt(a[0])
+		if !ok {
+			return Err("not int")
+		}
+		l, had := st.List[k]
+		if !had {
+			return Err("no such key")
+		}
+		if i < 0 {
+			i += int64(len(l))
+		}
+		if i < 0 || i >= int64(len(l)) {
+			return Err("index out of range")
+		}
+		nl := append([]string{}, l...)
+		nl[i] = a[1]
+		st.List[k] = nl
+		return "OK"
+	case "ltrim":
+		if len(a) != 2 {
+			return Err("args")
+		}
+		s, ok1 := parseInt(a[0])
+		e, ok2 := parseInt(a[1])
+		if !ok1 || !ok2 {
+			return Err("not int")
+		}
+		l, had := st.List[k]
+		if !had {
+			return "OK"
+		}
+		s2, e2, ok := rng(s, e, int64(len(l)))
+		if !ok {
+			delete(st.List, k)
+			return "OK"
+		}
+		st.List[k] = append([]string{}, l[s2:e2+1]...)
+		return "OK"
+	case "lclear":
+		if len(a) != 0 {
+			return Err("args")
+		}
+		_, had := st.List[k]
+		delete(st.List, k)
+		return b2i(had)
+	case "lkeyexist":
+		if len(a) != 0 {
+			return Err("args")
+		}
+		_, had := st.List[k]
+		return b2i(had)
 	// ---- hash ----
 	case "hset":
 		if len(a) != 2 {
@@ -231,6 +648,19 @@ func (st *Store) Apply(args []string) interface{} {
 		}
 		h[a[0]] = a[1]
 		return int64(1)
+	case "hmset":
+		if len(a) < 2 || len(a)%2 != 0 {
+			return Err("args")
+		}
+		h := st.Hash[k]
+		if h == nil {
+			h = map[string]string{}
+			st.Hash[k] = h
+		}
+		for i := 0; i < len(a); i += 2 {
+			h[a[i]] = a[i+1]
+		}
+		return "OK"
 	case "hget":
 		if len(a) != 1 {
 			return Err("args")
@@ -239,6 +669,25 @@ func (st *Store) Apply(args []string) interface{} {
 			return bulk(v)
 		}
 		return nil
+	case "hmget":
+		if len(a) < 1 {
+			return Err("args")
+		}
+		out := []interface{}{}
+		for _, f := range a {
+			if v, ok := st.Hash[k][f]; ok {
+				out = append(out, bulk(v))
+			} else {
+				out = append(out, nil)
+			}
+		}
+		return out
+	case "hexists":
+		if len(a) != 1 {
+			return Err("args")
+		}
+		_, ok := st.Hash[k][a[0]]
+		return b2i(ok)
 	case "hdel":
 		if len(a) < 1 {
 			return Err("args")
@@ -272,6 +721,9 @@ func (st *Store) Apply(args []string) interface{} {
 			}
 			cur = c
 		}
+		if addOverflows(cur, by) {
+			return Err("overflow")
+		}
 		if h == nil {
 			h = map[string]string{}
 			st.Hash[k] = h
@@ -280,13 +732,50 @@ func (st *Store) Apply(args []string) interface{} {
 		h[a[0]] = strconv.FormatInt(cur, 10)
 		return cur
 	case "hlen":
+		if len(a) != 0 {
+			return Err("args")
+		}
 		return int64(len(st.Hash[k]))
 	case "hgetall":
+		if len(a) != 0 {
+			return Err("args")
+		}
 		out := []interface{}{}
 		for _, f := range sortedKeys(st.Hash[k]) {
 			out = append(out, bulk(f), bulk(st.Hash[k][f]))
 		}
 		return out
+	case "hkeys":
+		if len(a) != 0 {
+			return Err("args")
+		}
+		out := []interface{}{}
+		for _, f := range sortedKeys(st.Hash[k]) {
+			out = append(out, bulk(f))
+		}
+		return out
+	case "hvals":
+		if len(a) != 0 {
+			return Err("args")
+		}
+		out := []interface{}{}
+		for _, f := range sortedKeys(st.Hash[k]) {
+			out = append(out, bulk(st.Hash[k][f]))
+		}
+		return out
+	case "hclear":
+		if len(a) != 0 {
+			return Err("args")
+		}
+		_, had := st.Hash[k]
+		delete(st.Hash, k)
+		return b2i(had)
+	case "hkeyexist":
+		if len(a) != 0 {
+			return Err("args")
+		}
+		_, had := st.Hash[k]
+		return b2i(had)
 	// ---- set ----
 	case "sadd":
 		if len(a) < 1 {
@@ -322,49 +811,100 @@ func (st *Store) Apply(args []string) interface{} {
 		}
 		return n
 	case "scard":
+		if len(a) != 0 {
+			return Err("args")
+		}
 		return int64(len(st.Set[k]))
 	case "sismember":
 		if len(a) != 1 {
 			return Err("args")
 		}
-		if st.Set[k][a[0]] {
-			return int64(1)
-		}
-		return int64(0)
+		return b2i(st.Set[k][a[0]])
 	case "smembers":
-		ms := make([]string, 0)
-		for m := range st.Set[k] {
-			ms = append(ms, m)
+		if len(a) != 0 {
+			return Err("args")
 		}
-		sort.Strings(ms)
 		out := []interface{}{}
-		for _, m := range ms {
+		for _, m := range sortedSet(st.Set[k]) {
 			out = append(out, bulk(m))
 		}
 		return out
 	case "spop":
 		// documented deviation: members are taken in key order
+		if len(a) > 1 {
+			return Err("args")
+		}
 		s := st.Set[k]
+		ms := sortedSet(s)
+		if len(a) == 1 {
+			cnt, ok := parseInt(a[0])
+			if !ok || cnt < 0 {
+				return Err("count")
+			}
+			out := []interface{}{}
+			for i := 0; i < len(ms) && int64(i) < cnt; i++ {
+				delete(s, ms[i])
+				out = append(out, bulk(ms[i]))
+			}
+			if s != nil && len(s) == 0 {
+				delete(st.Set, k)
+			}
+			return out
+		}
 		if len(s) == 0 {
 			return nil
 		}
-		ms := make([]string, 0)
-		for m := range s {
-			ms = append(ms, m)
-		}
-		sort.Strings(ms)
 		delete(s, ms[0])
 		if len(s) == 0 {
 			delete(st.Set, k)
 		}
 		return bulk(ms[0])
+	case "srandmember":
+		// documented deviation: members are returned in key order
+		if len(a) > 1 {
+			return Err("args")
+		}
+		ms := sortedSet(st.Set[k])
+		if len(a) == 0 {
+			if len(ms) == 0 {
+				return nil
+			}
+			return bulk(ms[0])
+		}
+		cnt, ok := parseInt(a[0])
+		if !ok {
+			return Err("count")
+		}
+		out := []interface{}{}
+		if cnt < 0 {
+			// Redis: |count| elements, repetition allowed; in key order that is
+			// unspecified here, the caller must not compare contents
+			return Err("negative count not modelled")
+		}
+		for i := 0; i < len(ms) && int64(i) < cnt; i++ {
+			out = append(out, bulk(ms[i]))
+		}
+		return out
+	case "sclear":
+		if len(a) != 0 {
+			return Err("args")
+		}
+		_, had := st.Set[k]
+		delete(st.Set, k)
+		return b2i(had)
+	case "skeyexist":
+		if len(a) != 0 {
+			return Err("args")
+		}
+		_, had := st.Set[k]
+		return b2i(had)
 	// ---- zset ----
 	case "zadd":
 		if len(a) < 2 || len(a)%2 != 0 {
 			return Err("args")
 		}
 		for i := 0; i < len(a); i += 2 {
-			if _, err := strconv.ParseFloat(a[i], 64); err != nil {
+			if _, ok := parseScore(a[i]); !ok {
 				return Err("not float")
 			}
 		}
@@ -375,7 +915,7 @@ func (st *Store) Apply(args []string) interface{} {
 		}
 		n := int64(0)
 		for i := 0; i < len(a); i += 2 {
-			sc, _ := strconv.ParseFloat(a[i], 64)
+			sc, _ := parseScore(a[i])
 			if _, ok := z[a[i+1]]; !ok {
 				n++
 			}
@@ -386,11 +926,14 @@ func (st *Store) Apply(args []string) interface{} {
 		if len(a) != 2 {
 			return Err("args")
 		}
-		by, err := strconv.ParseFloat(a[0], 64)
-		if err != nil {
+		by, ok := parseScore(a[0])
+		if !ok {
 			return Err("not float")
 		}
 		z := st.ZSet[k]
+		if math.IsNaN(z[a[1]] + by) {
+			return Err("nan")
+		}
 		if z == nil {
 			z = map[string]float64{}
 			st.ZSet[k] = z
@@ -409,11 +952,12 @@ func (st *Store) Apply(args []string) interface{} {
 				n++
 			}
 		}
-		if z != nil && len(z) == 0 {
-			delete(st.ZSet, k)
-		}
+		st.zdropEmpty(k)
 		return n
 	case "zcard":
+		if len(a) != 0 {
+			return Err("args")
+		}
 		return int64(len(st.ZSet[k]))
 	case "zscore":
 		if len(a) != 1 {
@@ -423,23 +967,189 @@ func (st *Store) Apply(args []string) interface{} {
 			return bulk(FmtScore(s))
 		}
 		return nil
-	case "zrange":
-		// only "zrange key 0 -1 withscores" is modelled here
-		var ms []zmember
-		for m, s := range st.ZSet[k] {
-			ms = append(ms, zmember{m, s})
+	case "zrank", "zrevrank":
+		if len(a) != 1 {
+			return Err("args")
 		}
-		sort.Slice(ms, func(i, j int) bool {
-			if ms[i].s != ms[j].s {
-				return ms[i].s < ms[j].s
+		ms := st.zsorted(k)
+		for i, x := range ms {
+			if x.m == a[0] {
+				if name == "zrank" {
+					return int64(i)
+				}
+				return int64(len(ms) - 1 - i)
 			}
-			return ms[i].m < ms[j].m
-		})
+		}
+		return nil
+	case "zrange", "zrevrange":
+		if len(a) != 2 && len(a) != 3 {
+			return Err("args")
+		}
+		s, ok1 := parseInt(a[0])
+		e, ok2 := parseInt(a[1])
+		if !ok1 || !ok2 {
+			return Err("not int")
+		}
+		ws := false
+		if len(a) == 3 {
+			if strings.ToLower(a[2]) != "withscores" {
+				return Err("syntax")
+			}
+			ws = true
+		}
+		ms := st.zsorted(k)
+		if name == "zrevrange" {
+			for i, j := 0, len(ms)-1; i < j; i, j = i+1, j-1 {
+				ms[i], ms[j] = ms[j], ms[i]
+			}
+		}
 		out := []interface{}{}
-		for _, x := range ms {
-			out = append(out, bulk(x.m), bulk(FmtScore(x.s)))
+		s2, e2, ok := rng(s, e, int64(len(ms)))
+		if !ok {
+			return out
+		}
+		for i := s2; i <= e2; i++ {
+			out = append(out, bulk(ms[i].m))
+			if ws {
+				out = append(out, bulk(FmtScore(ms[i].s)))
+			}
 		}
 		return out
+	case "zrangebyscore", "zrevrangebyscore", "zcount", "zremrangebyscore":
+		if len(a) < 2 {
+			return Err("args")
+		}
+		los, his := a[0], a[1]
+		if name == "zrevrangebyscore" {
+			los, his = a[1], a[0]
+		}
+		lo, ok1 := parseScoreBound(los)
+		hi, ok2 := parseScoreBound(his)
+		if !ok1 || !ok2 {
+			return Err("min or max is not a float")
+		}
+		var sel []zmember
+		for _, x := range st.zsorted(k) {
+			if inScore(x.s, lo, hi) {
+				sel = append(sel, x)
+			}
+		}
+		switch name {
+		case "zcount":
+			if len(a) != 2 {
+				return Err("args")
+			}
+			return int64(len(sel))
+		case "zremrangebyscore":
+			if len(a) != 2 {
+				return Err("args")
+			}
+			for _, x := range sel {
+				delete(st.ZSet[k], x.m)
+			}
+			st.zdropEmpty(k)
+			return int64(len(sel))
+		}
+		rest := a[2:]
+		ws := false
+		if len(rest) > 0 && strings.ToLower(rest[0]) == "withscores" {
+			ws = true
+			rest = rest[1:]
+		}
+		off, cnt, ok := parseLimit(rest)
+		if !ok {
+			return Err("syntax")
+		}
+		if name == "zrevrangebyscore" {
+			for i, j := 0, len(sel)-1; i < j; i, j = i+1, j-1 {
+				sel[i], sel[j] = sel[j], sel[i]
+			}
+		}
+		from, to := limit(len(sel), off, cnt)
+		out := []interface{}{}
+		for _, x := range sel[from:to] {
+			out = append(out, bulk(x.m))
+			if ws {
+				out = append(out, bulk(FmtScore(x.s)))
+			}
+		}
+		return out
+	case "zrangebylex", "zlexcount", "zremrangebylex":
+		// Redis defines the lexicographic commands for sets whose members all
+		// have the same score; the model orders by member bytes alone, which
+		// is the same thing there.
+		if len(a) < 2 {
+			return Err("args")
+		}
+		lo, ok1 := parseLexBound(a[0])
+		hi, ok2 := parseLexBound(a[1])
+		if !ok1 || !ok2 {
+			return Err("min or max not valid string range item")
+		}
+		var sel []string
+		for _, m := range st.zlexsorted(k) {
+			if inLex(m, lo, hi) {
+				sel = append(sel, m)
+			}
+		}
+		switch name {
+		case "zlexcount":
+			if len(a) != 2 {
+				return Err("args")
+			}
+			return int64(len(sel))
+		case "zremrangebylex":
+			if len(a) != 2 {
+				return Err("args")
+			}
+			for _, m := range sel {
+				delete(st.ZSet[k], m)
+			}
+			st.zdropEmpty(k)
+			return int64(len(sel))
+		}
+		off, cnt, ok := parseLimit(a[2:])
+		if !ok {
+			return Err("syntax")
+		}
+		from, to := limit(len(sel), off, cnt)
+		out := []interface{}{}
+		for _, m := range sel[from:to] {
+			out = append(out, bulk(m))
+		}
+		return out
+	case "zremrangebyrank":
+		if len(a) != 2 {
+			return Err("args")
+		}
+		s, ok1 := parseInt(a[0])
+		e, ok2 := parseInt(a[1])
+		if !ok1 || !ok2 {
+			return Err("not int")
+		}
+		ms := st.zsorted(k)
+		s2, e2, ok := rng(s, e, int64(len(ms)))
+		if !ok {
+			return int64(0)
+		}
+		for i := s2; i <= e2; i++ {
+			delete(st.ZSet[k], ms[i].m)
+		}
+		st.zdropEmpty(k)
+		return e2 - s2 + 1
+	case "zclear":
+		if len(a) != 0 {
+			return Err("args")
+		}
+		_, had := st.ZSet[k]
+		delete(st.ZSet, k)
+		return b2i(had)
+	case "zkeyexist":
+		if len(a) != 0 {
+			return Err("args")
+		}
+		_, had := st.ZSet[k]
+		return b2i(had)
 	}
 	return Err("unknown command " + name)
 }
@@ -447,27 +1157,121 @@ func (st *Store) Apply(args []string) interface{} {
 // TypeOf returns the keyspace a command works on.
 func TypeOf(name string) string {
 	switch strings.ToLower(name) {
-	case "set", "get", "getset", "setnx", "append", "incr", "incrby", "del", "exists":
+	case "set", "setex", "get", "getset", "setnx", "append", "strlen", "setrange", "getrange", "incr", "incrby", "decr", "decrby",
+		"del", "exists", "mget":
 		return "kv"
-	case "lpush", "rpush", "lpop", "rpop", "llen", "lrange":
+	case "lpush", "rpush", "lpop", "rpop", "llen", "lindex", "lrange", "lset", "ltrim", "lclear", "lkeyexist":
 		return "list"
-	case "hset", "hsetnx", "hget", "hdel", "hincrby", "hlen", "hgetall":
+	case "hset", "hsetnx", "hmset", "hget", "hmget", "hexists", "hdel", "hincrby", "hlen", "hgetall", "hkeys", "hvals", "hclear", "hkeyexist":
 		return "hash"
-	case "sadd", "srem", "scard", "sismember", "smembers", "spop":
+	case "sadd", "srem", "scard", "sismember", "smembers", "spop", "srandmember", "sclear", "skeyexist":
 		return "set"
-	case "zadd", "zincrby", "zrem", "zcard", "zscore", "zrange":
+	case "zadd", "zincrby", "zrem", "zcard", "zscore", "zrank", "zrevrank", "zrange", "zrevrange", "zrangebyscore", "zrevrangebyscore",
+		"zcount", "zrangebylex", "zlexcount", "zremrangebyrank", "zremrangebyscore", "zremrangebylex", "zclear", "zkeyexist":
 		return "zset"
 	}
 	return ""
 }
 
-// IsRead reports commands that never change state.
-func IsRead(name string) bool {
+// MultiKey reports commands whose arguments after the name are all keys.
+func MultiKey(name string) bool {
 	switch strings.ToLower(name) {
-	case "get", "exists", "llen", "lrange", "hget", "hlen", "hgetall", "scard", "sismember", "smembers", "zcard", "zscore", "zrange":
+	case "del", "exists", "mget":
 		return true
 	}
 	return false
+}
+
+// IsRead reports commands that never change state.
+func IsRead(name string) bool {
+	switch strings.ToLower(name) {
+	case "get", "exists", "mget", "strlen", "getrange",
+		"llen", "lrange", "lindex", "lkeyexist",
+		"hget", "hmget", "hexists", "hlen", "hgetall", "hkeys", "hvals", "hkeyexist",
+		"scard", "sismember", "smembers", "srandmember", "skeyexist",
+		"zcard", "zscore", "zrank", "zrevrank", "zrange", "zrevrange", "zrangebyscore", "zrevrangebyscore", "zcount", "zrangebylex", "zlexcount", "zkeyexist":
+		return true
+	}
+	return false
+}
+
+// Dump returns the canonical full content of one (type, key): the reply of
+// the enumerating read of that type ("get", "lrange 0 -1", "hgetall",
+// "smembers", "zrange 0 -1 withscores").
+func (st *Store) Dump(typ, k string) interface{} {
+	return st.Apply(DumpCmd(typ, k))
+}
+
+// DumpCmd is the command whose reply reveals the whole value of (type, key).
+func DumpCmd(typ, k string) []string {
+	switch typ {
+	case "kv":
+		return []string{"get", k}
+	case "list":
+		return []string{"lrange", k, "0", "-1"}
+	case "hash":
+		return []string{"hgetall", k}
+	case "set":
+		return []string{"smembers", k}
+	case "zset":
+		return []string{"zrange", k, "0", "-1", "withscores"}
+	}
+	return nil
+}
+
+// Load replaces the content of (type, key) by what a Dump-shaped reply says
+// (used to resynchronise after a recorded known deviation).
+func (st *Store) Load(typ, k string, dump interface{}) {
+	arr, _ := dump.([]interface{})
+	str := func(v interface{}) string {
+		b, _ := v.([]byte)
+		return string(b)
+	}
+	switch typ {
+	case "kv":
+		if b, ok := dump.([]byte); ok {
+			st.KV[k] = string(b)
+		} else {
+			delete(st.KV, k)
+		}
+	case "list":
+		delete(st.List, k)
+		if len(arr) > 0 {
+			var l []string
+			for _, v := range arr {
+				l = append(l, str(v))
+			}
+			st.List[k] = l
+		}
+	case "hash":
+		delete(st.Hash, k)
+		if len(arr) > 1 {
+			h := map[string]string{}
+			for i := 0; i+1 < len(arr); i += 2 {
+				h[str(arr[i])] = str(arr[i+1])
+			}
+			st.Hash[k] = h
+		}
+	case "set":
+		delete(st.Set, k)
+		if len(arr) > 0 {
+			s := map[string]bool{}
+			for _, v := range arr {
+				s[str(v)] = true
+			}
+			st.Set[k] = s
+		}
+	case "zset":
+		delete(st.ZSet, k)
+		if len(arr) > 1 {
+			z := map[string]float64{}
+			for i := 0; i+1 < len(arr); i += 2 {
+				f, _ := strconv.ParseFloat(str(arr[i+1]), 64)
+				z[str(arr[i])] = f
+			}
+			st.ZSet[k] = z
+		}
+	}
 }
 
 // Equal compares an implementation reply (nodeh types; error replies are any
